@@ -51,3 +51,36 @@ def run(d, aexe, sources, tag="asx"):
         recs.append({'id': c['id'], 'src': c['src'], 'toks': tokens_of(t['tokens']), 'status': r['status'], 'diag': r.get('diag', ''),
                      'shown': shown(r['listing']) if r['status'] == 'ok' else []})
     return recs
+
+
+def run_bin(d, aexe, sources, tag="asb", maxbytes=12000):
+    """records for spec/AsmBinaryV: tokens + the bytes of the file hexasm writes (length word, image, debug tables)"""
+    import struct
+    cases = [{'id': i, 'src': s} for i, s in sources]
+    tk = asmlib.run_cases(aexe, cases, d, tag=tag + "k", flags="k")
+    res = asmlib.run_cases(aexe, cases, d, tag=tag + "r")
+    recs = []
+    for c, t, r in zip(cases, tk, res):
+        if 'tokens' not in t or r['status'] not in ('ok', 'error'):
+            continue
+        toks = tokens_of(t['tokens'])
+        raw = struct.pack('<I', r['hdr']) + bytes(r['img']) + bytes(r['dbg']) if r['status'] == 'ok' else b""
+        if len(raw) > maxbytes:
+            continue
+        words = {tok[1] for tok in toks if tok[0] not in ('NUMBER', 'MINUS', 'NONE', 'EOF')}
+        recs.append({'id': c['id'], 'src': c['src'], 'toks': toks, 'status': r['status'], 'bin': list(raw),
+                     'names': {w: list(w.encode('latin-1', 'replace')) for w in words}})
+    return recs
+
+
+def validate_bin(recs, d, tag="asbv"):
+    import xlib
+    src = next((r for r in recs if r['status'] == 'ok' and len(r['bin']) > 24), None)
+    if src is None:
+        raise vlib.MachineryError("no assembled record to build the canary from")
+    can = json.loads(json.dumps(src)); can['id'] = 'canary'; can['bin'][5] ^= 1
+    slim = [{k: v for k, v in r.items() if k != 'src'} for r in recs + [can]]
+    verd = xlib.validate(slim, d, tag, module="AsmBinaryV", cfg="AsmBinaryV.cfg")
+    if verd[-1]['v'] != 'bad' or verd[-1]['cls'] != 'file-differs' or verd[-1]['at'] != 6:
+        raise vlib.MachineryError("canary accepted by AsmBinaryV: binding is not live (%s)" % verd[-1])
+    return verd[:-1]
